@@ -37,7 +37,7 @@ def rendezvous(ck):
 def run(ck):
     engine.check_engine(ck, 'C17', actor.proj(keep_out=lambda o: '<-Rq:' in o, keys=('starts',)),
                         'script starts + requests sent to dependencies per event',
-                        n_sys_quick=10, fail_p=0.05, gated_p=0.9, extra=rendezvous)
+                        n_sys_quick=10, fail_p=0.05, gated_p=0.9, extra=rendezvous, n_evflow_quick=16)
 
 
 def replay(ck, path):
